@@ -203,6 +203,10 @@ pub fn run(a: &Args, rep: &mut Report) {
             rep.add("helper_calls_predicted", p.rr.helper_log.len() as u64);
             let want = expected_log(p);
             let w = |extra: serde_json::Value| witness(p, extra);
+            if let Some(m) = &p.ir.repeat_mismatch {
+                rep.violation("C08:interp:history-dependence", m.clone(), w(json!({})));
+                continue;
+            }
             match (&p.rr.outcome, &p.ir.ran) {
                 (_, Ran::Panic(m)) => rep.violation("C08:interp:panic", format!("interpreter panicked: {m}"), w(json!({}))),
                 (Outcome::Value(v), Ran::Ok(x)) => {
@@ -245,6 +249,10 @@ pub fn run(a: &Args, rep: &mut Report) {
                     EngineEnd::Signal(s) => rep.violation(&format!("C08:{en}:signal-{}", crate::sys::signame(*s)), format!("{en} code died with {} in a program that only calls helpers", crate::sys::signame(*s)), w(json!({}))),
                     EngineEnd::Diverged => rep.violation(&format!("C08:{en}:diverged"), "did not terminate".into(), w(json!({}))),
                     EngineEnd::Rec(r) => {
+                        if r.soaked > 0 {
+                            rep.count("soaked_compiled_cases");
+                            rep.add("soak_extra_executions_and_recompilations_on_one_compiled_vm", r.soaked as u64);
+                        }
                         if plan.has_unregistered {
                             // compile time error expected, whether or not the call is reachable
                             match r.status {
@@ -267,6 +275,7 @@ pub fn run(a: &Args, rep: &mut Report) {
                             }
                             (Outcome::Value(_), 1) => rep.violation(&format!("C08:{en}:compile-err"), format!("{en} refused a program whose helpers are all registered: {}", r.msg), w(json!({}))),
                             (Outcome::Value(_), 2) => rep.violation(&format!("C08:{en}:compile-panic"), r.msg.clone(), w(json!({}))),
+                            (Outcome::Value(_), 6) => rep.violation(&format!("C08:{en}:history-dependence"), r.msg.clone(), w(json!({}))),
                             _ => rep.count(&format!("{en}_other")),
                         }
                     }
